@@ -85,7 +85,7 @@ pub fn replay(path: &str) -> ! {
     let doc = load(path);
     let prop = doc["property"].as_str().unwrap_or_else(|| inconclusive("replay file has no property")).to_string();
     let mut rc = RunCtx::new(&prop, Tier::Quick, doc["seed"].as_u64().unwrap_or(0));
-    rc.work = std::path::PathBuf::from(format!("{}/work/replay-{}", VERIF, prop));
+    rc.work = std::path::PathBuf::from(format!("{}/work/replay-{}", verif(), prop));
     rc.write_evidence = false;
     match replay_doc(&rc, &doc) {
         Err(what) => {
@@ -104,7 +104,7 @@ pub fn replay(path: &str) -> ! {
 /// /verif/regressions/<ID>/. A replay that fails again is a violation with signature
 /// `regression/<file stem>`.
 pub fn regressions(rc: &RunCtx) -> (Vec<Violation>, u64) {
-    let dir = format!("{}/regressions/{}", VERIF, rc.prop);
+    let dir = format!("{}/regressions/{}", verif(), rc.prop);
     let mut files: Vec<std::path::PathBuf> = match std::fs::read_dir(&dir) {
         Ok(rd) => rd.filter_map(|e| e.ok()).map(|e| e.path()).filter(|p| p.extension().map(|x| x == "json").unwrap_or(false)).collect(),
         Err(_) => return (vec![], 0),
@@ -128,7 +128,7 @@ pub fn regressions(rc: &RunCtx) -> (Vec<Violation>, u64) {
 
 pub fn warm() -> ! {
     let mut rc = RunCtx::new("C16", Tier::Quick, 0);
-    rc.work = std::path::PathBuf::from(format!("{}/work/warm", VERIF));
+    rc.work = std::path::PathBuf::from(format!("{}/work/warm", verif()));
     rc.write_evidence = false;
     let layouts: Vec<(usize, Layout)> = crate::corpus::corpus("C16", Tier::Quick, 0).into_iter().take(8).collect();
     let cfg = BConfig { emit: EmitOpts { builder: true, ..EmitOpts::accessors() }, profiles: vec!["dev", "release", "checked"], cases: 50, max_ops: 8, exh_budget: 1000, ncrates: 2, tolerant: false };
